@@ -855,7 +855,9 @@ fn tree_points<F: Float>() -> Vec<(&'static str, DecisionTreeParams<F, usize>)> 
         ("gini_depth1_min_impurity", DecisionTree::params().max_depth(Some(1)).min_impurity_decrease(F::cast(0.1 + 0.2))),
         // Option<usize> depth limit at Some(0) (a legal single-leaf tree), Some(1) is above, Some(huge); numeric extremes
         ("depth0_single_leaf", DecisionTree::params().max_depth(Some(0))),
-        ("depth_huge_zero_weights_eps_impurity", DecisionTree::params().max_depth(Some(usize::MAX)).min_weight_split(0.0).min_weight_leaf(0.0).min_impurity_decrease(F::epsilon())),
+        ("depth_huge_eps_impurity", DecisionTree::params().max_depth(Some(usize::MAX)).min_impurity_decrease(F::epsilon())),
+        // (fitting with both minimum weights at 0 panics `assertion failed: n_samples > 0.0`: not C19's subject, the panic text is the observation)
+        ("zero_weights", DecisionTree::params().max_depth(Some(2)).min_weight_split(0.0).min_weight_leaf(0.0)),
         ("huge_weights_huge_impurity", DecisionTree::params().max_depth(None).min_weight_split(f32::MAX).min_weight_leaf(f32::MAX).min_impurity_decrease(F::cast(1e30))),
         ("invalid_min_impurity", DecisionTree::params().min_impurity_decrease(F::cast(0.0))),
     ]
